@@ -825,3 +825,34 @@ func OmitemptyFalseOp(s *Schema, tag string) *Def {
 	}
 	return nil
 }
+
+// SharedInputTwoOpsDefs: two operations that take the SAME input-object type as a variable under
+// DIFFERENT operation-level options; the second gives its variable a `typename`, the documented
+// way to get the input struct generated again with this operation's own options.  The options
+// of the first operation must not reach the second one's struct (input-object fields are schema
+// nodes that every operation visits).  The input type (all fields nullable, so that both options
+// are legal on every field) and a root field taking it are added to the schema.
+// which = 0: the first operation has `omitempty: true`; which = 1: the second has `pointer: true`.
+func SharedInputTwoOpsDefs(s *Schema, tag string, which int) []*Def {
+	q := s.Get("Query")
+	in := "Hz" + tag + "Filter"
+	if q == nil || s.Get(in) != nil {
+		return nil
+	}
+	s.add(&TypeDef{Kind: "INPUT", Name: in, Inputs: []*Arg{
+		{Name: "name", Type: Named("String", false)},
+		{Name: "limit", Type: Named("Int", false)},
+		{Name: "tags", Type: ListOf(Named("String", true), false)},
+		{Name: "sub", Type: Named(in, false)}}})
+	fld := "hz" + tag + "Find"
+	q.Fields = append(q.Fields, &FieldDef{Name: fld, Type: Named("Boolean", false), Args: []*Arg{{Name: "f", Type: Named(in, false)}}})
+	opA, opB := "Hz"+tag+"A", "Hz"+tag+"B"
+	dirA, dirB := "# @genqlient(omitempty: true)\n", ""
+	if which == 1 {
+		dirA, dirB = "", "# @genqlient(pointer: true)\n"
+	}
+	return []*Def{
+		{Kind: "query", Name: opA, Text: fmt.Sprintf("%squery %s($v: %s) {\n  %s(f: $v)\n}\n", dirA, opA, in, fld)},
+		{Kind: "query", Name: opB, Text: fmt.Sprintf("%squery %s(\n  # @genqlient(typename: \"%sIn\")\n  $v: %s,\n) {\n  %s(f: $v)\n}\n", dirB, opB, opB, in, fld)},
+	}
+}
